@@ -2,6 +2,8 @@ package verifsim
 
 import (
 	"fmt"
+	"math/rand"
+	"runtime"
 	"sort"
 	"strings"
 	"sync"
@@ -130,6 +132,11 @@ func runC13(w *World, tr *Trace) {
 		}
 	}
 	w.Opts = w.defaultOpts()
+	freeRun := kdArgs["free"] == "1"
+	if freeRun {
+		w.Probe("free_running_race_tier")
+		realTime = true
+	}
 	var mu sync.Mutex
 	var recs []*c13Rec
 	var closeInvoke, closeRet int64 = -1, -1
@@ -182,8 +189,10 @@ func runC13(w *World, tr *Trace) {
 	stop := startWatchdog(120*time.Second, "C13 run")
 	p, stack := bubble(w.T, func() {
 		w.Start = time.Now()
-		w.installSim(spec)
-		defer w.removeSim()
+		if !freeRun {
+			w.installSim(spec)
+			defer w.removeSim()
+		}
 		if err := w.openEngine(); err != nil {
 			panic(harnessErr{"initial open: " + err.Error()})
 		}
@@ -203,7 +212,29 @@ func runC13(w *World, tr *Trace) {
 			e.EventBus.Subscribe(subBuf) // a subscriber that never reads
 		}
 		settle()
-		sres = w.runScheduled(spec, tasks, advProb)
+		if freeRun {
+			// free-running tier (race build): the Go scheduler decides, several Ps, randomised yields at op
+			// boundaries - the schedule is NOT the simulator's and does not replay; what this tier adds is the
+			// race detector seeing unsynchronised accesses between tasks (the cooperative tier hides them)
+			var wg sync.WaitGroup
+			for ti, t := range tasks {
+				wg.Add(1)
+				go func(ti int, t *Task) {
+					defer wg.Done()
+					yr := rand.New(rand.NewSource(spec.Seed + int64(ti)))
+					for i, op := range t.Ops {
+						if yr.Intn(3) == 0 {
+							runtime.Gosched()
+						}
+						t.Run(t, i, op)
+					}
+				}(ti, t)
+			}
+			wg.Wait()
+			sres = &SchedResult{}
+		} else {
+			sres = w.runScheduled(spec, tasks, advProb)
+		}
 		if sres.Stall != "" {
 			w.Fail("no_deadlock", "stall", sres.Stall, -1)
 			return
